@@ -24,7 +24,7 @@ def one(job):
         pr = subprocess.run(["patch", "-p1", "-s", "-i", p], cwd=rp, stdout=subprocess.PIPE, stderr=subprocess.STDOUT, text=True)
         if pr.returncode: return name, ["PATCH-FAILED " + pr.stdout[-100:]]
         def chk(prop):
-            r = subprocess.run([os.path.join(ROOT, "check"), prop, "--repo", rp, "--no-evidence"], cwd=ROOT, stdout=subprocess.PIPE, stderr=subprocess.STDOUT, text=True)
+            r = subprocess.run([os.path.join(ROOT, "check"), prop, "--repo", rp, "--no-evidence", "--no-replay"], cwd=ROOT, stdout=subprocess.PIPE, stderr=subprocess.STDOUT, text=True)
             if r.returncode == 0: return None
             lines = [l for l in r.stdout.split("\n") if l.startswith(("VIOLATION", "UNDECIDED"))]
             return "%s exit%d %s" % (prop, r.returncode, (lines[0][:260] if lines else r.stdout[-200:]))
